@@ -1164,7 +1164,10 @@ def np_array(x, dtype=None, ndmin=0, **k):
         r = as_arr(x)
     elif type(x).__name__ == 'SymList':
         item = np_array(x.elem) if isinstance(x.elem, (list, tuple)) else as_arr(x.elem)
-        r = Arr((x.n,) + tuple(item.shape), [() if is_one(x.n) else (opaque_leg(x.n, 'array'),)] + list(item.legs), item.dt, None, {'elements': [item], 'symbolic_length': x.n}, 'array')
+        hook = getattr(CTX, 'array_leg_hook', None)
+        lead = hook([item], x.n) if hook else None
+        r = Arr((x.n,) + tuple(item.shape), [lead if lead is not None else (() if is_one(x.n) else (opaque_leg(x.n, 'array'),))] + list(item.legs), item.dt, None,
+                {'elements': [item], 'symbolic_length': x.n}, 'array')
     elif isinstance(x, (list, tuple)):
         if len(x) == 0:
             r = Arr((0,), [(opaque_leg(0),)], 'real', None)
@@ -1174,7 +1177,9 @@ def np_array(x, dtype=None, ndmin=0, **k):
             for it in items:
                 if len(it.shape) != len(s0) or not all(sz_eq(p, q) for p, q in zip(it.shape, s0)):
                     raise value_error('setting an array element with a sequence. The requested array has an inhomogeneous shape')
-            r = Arr((len(x),) + tuple(s0), [() if len(x) == 1 else (opaque_leg(len(x), 'array'),)] + list(items[0].legs), join_dtype(*[i.dt for i in items]), None,
+            hook = getattr(CTX, 'array_leg_hook', None)
+            lead = hook(items, len(x)) if hook else None
+            r = Arr((len(x),) + tuple(s0), [lead if lead is not None else (() if len(x) == 1 else (opaque_leg(len(x), 'array'),))] + list(items[0].legs), join_dtype(*[i.dt for i in items]), None,
                     {'elements': items}, 'array')
     else:
         raise AnalysisError(f'np.array of {type(x).__name__} has no model')
